@@ -11,6 +11,9 @@
 #include "util/file_piece.hh"
 #include "util/utf8.hh"
 #include "preprocess/captive_child.hh"
+#ifdef PREPROCESS_VERIF
+#include "util/verif_hooks.hh"
+#endif
 
 namespace {
 
@@ -267,9 +270,15 @@ int main(int argc, char **argv) {
 
 		std::deque<util::StringPiece> lines;
     std::vector<util::StringPiece> delimiters;
+#ifdef PREPROCESS_VERIF
+		uint64_t verif_record = 0;
+#endif
 		util::StringPiece sentence;
 		// A carriage return in front of the newline is part of the line.
 		while (in.ReadLineOrEOF(sentence, '\n', false)) {
+#ifdef PREPROCESS_VERIF
+			PREPROCESS_VERIF_TRACE('F', "rec", verif_record);
+#endif
 
 			// If there is nothing to wrap, it will end up with a single line
 			// and a single empty delimiter.
@@ -280,19 +289,39 @@ int main(int argc, char **argv) {
 			// but their amount at least will tell the reader thread how many
 			// lines it needs to consume to reconstruct the single line.
       DelimiterList list(delimiters);
+#ifdef PREPROCESS_VERIF
+			PREPROCESS_VERIF_TRACE('F', "lines", lines.size());
+			PREPROCESS_VERIF_TRACE('F', "enq", verif_record);
+#endif
 			queue.Produce(std::move(list));
+#ifdef PREPROCESS_VERIF
+			PREPROCESS_VERIF_TRACE('F', "send", verif_record);
+#endif
 
 			// Feed the document to the child.
 			// Might block because it can cause a flush.
 			for (auto const &line : lines)
 				child_in << line << '\n';
+#ifdef PREPROCESS_VERIF
+			++verif_record;
+#endif
 		}
 
 		// Tell the reader to stop
+#ifdef PREPROCESS_VERIF
+		PREPROCESS_VERIF_TRACE('F', "eof", verif_record);
+		PREPROCESS_VERIF_TRACE('F', "enq-poison", 0);
+#endif
 		queue.Produce({});
 
 		// Flush (blocks) & close the child's stdin
+#ifdef PREPROCESS_VERIF
+		PREPROCESS_VERIF_TRACE('F', "flush", verif_record);
+#endif
 		child_in.flush();
+#ifdef PREPROCESS_VERIF
+		PREPROCESS_VERIF_TRACE('F', "flushed", verif_record);
+#endif
 	});
 
 	std::thread reader([&child_out_fd, &queue, &options]() {
@@ -302,7 +331,14 @@ int main(int argc, char **argv) {
 		DelimiterList delimiters;
 		std::string sentence;
 
+#ifdef PREPROCESS_VERIF
+		uint64_t verif_line = 0;
+#endif
 		for (size_t sentence_num = 1; queue.Consume(delimiters).size() > 0; ++sentence_num) {
+#ifdef PREPROCESS_VERIF
+			PREPROCESS_VERIF_TRACE('C', "deq", sentence_num - 1);
+			PREPROCESS_VERIF_TRACE('C', "need", delimiters.size());
+#endif
 			sentence.clear();
 			
 			// Let's assume that the wrapped process plus the chopped off
@@ -313,6 +349,9 @@ int main(int argc, char **argv) {
         DelimiterList::forward_iterator delimit(delimiters);
         for (size_t i = 0; i < delimiters.size(); ++i, ++delimit) {
 					util::StringPiece line(child_out.ReadLine('\n', false));
+#ifdef PREPROCESS_VERIF
+					PREPROCESS_VERIF_TRACE('C', "line", verif_line++);
+#endif
 					sentence.append(line.data(), line.length());
           util::StringPiece delimiter(*delimit);
 					sentence.append(delimiter.data(), delimiter.size());
@@ -326,6 +365,9 @@ int main(int argc, char **argv) {
 			// might concatenate all these files and that will mess up if they
 			// don't have a trailing newline.
 			out << sentence << '\n';
+#ifdef PREPROCESS_VERIF
+			PREPROCESS_VERIF_TRACE('C', "emit", sentence_num - 1);
+#endif
 
 			// Just to check, next time we call Consume(), will we block? If so,
 			// that means we've caught up with the producer. However, the order
@@ -337,6 +379,9 @@ int main(int argc, char **argv) {
 			// then what is this output that is being produced by the sub-
 			// process?
 			if (queue.Empty()) {
+#ifdef PREPROCESS_VERIF
+				PREPROCESS_VERIF_TRACE('C', "peek-branch", sentence_num - 1);
+#endif
 				// If peek throws EOF now our sub-process stopped before its
 				// stdin was closed (producer produces the poison before it
 				// closes the sub-process's stdin.)
@@ -349,6 +394,9 @@ int main(int argc, char **argv) {
 					UTIL_THROW(util::Exception, "sub-process is producing more output than it was given input");
 			}
 		}
+#ifdef PREPROCESS_VERIF
+		PREPROCESS_VERIF_TRACE('C', "deq-poison", 0);
+#endif
 	});
 
 	int retval = preprocess::Wait(child);
